@@ -31,6 +31,8 @@ func (Area) Exec(input string) string {
 		return execBind(f)
 	case "wsup":
 		return execWSUp(f)
+	case "glue":
+		return execGlue(f)
 	}
 	return "BADOP"
 }
@@ -284,6 +286,32 @@ func (Area) Gen(r *rand.Rand, tier string, emit func(string)) {
 		}
 	}
 	note(fmt.Sprintf("wsup handshakes=%d", nUp))
+	// the root constructor: option sets x entry points x RPC kinds x Content-Type x Accept (x client frames)
+	glueOpts := []string{"none", "mj", "mjb", "mb", "db", "mjb+db", "mb+db", "db+mjb"}
+	glueFrames := []string{"t", "b", "tb", "bb"}
+	if tier == "thorough" {
+		glueFrames = []string{"t", "b", "tt", "tb", "bt", "bb", "ttb", "bbt"}
+	}
+	nGlue := 0
+	for _, o := range glueOpts {
+		for _, kind := range []string{"ss", "bidi"} {
+			for _, ct := range []string{"-", "j", "b"} {
+				for _, acc := range []string{"-", "j", "b"} {
+					resp := hexTexts([]string{"r1", common.Pick(r, nasty), "r3"})
+					emit(fmt.Sprintf("glue %s http %s %s %s - %s", o, kind, ct, acc, resp))
+					if acc == "-" {
+						emit(fmt.Sprintf("glue %s sse %s %s - - %s", o, kind, ct, resp))
+					}
+					for _, fr := range glueFrames {
+						emit(fmt.Sprintf("glue %s ws %s %s %s %s %s", o, kind, ct, acc, fr, resp))
+						nGlue++
+					}
+					nGlue++
+				}
+			}
+		}
+	}
+	note(fmt.Sprintf("glue sessions=%d", nGlue))
 	for i := 0; i < nHTTP; i++ {
 		emit(genHTTP(r, maxMsgs))
 	}
